@@ -4,19 +4,24 @@ Every candidate is executed in a forked child, preceded by the runs that
 preceded the failing run in its worker chunk (`prefix`), because process state
 (caches, global RNG, allocator history) may be part of what makes it fail.  The
 prefix is dropped first if the run fails on its own, else shrunk like a tape."""
+import time
+
 from .run import execute_isolated
 
 CANON_FIRST = ('sched', 'mpi', 'gomp', 'pool', 'fault', 'poison')
 
 
-def minimise(prop_mod, tape, vclass, tier='quick', budget=300, opts=None, prefix=()):
+def minimise(prop_mod, tape, vclass, tier='quick', budget=200, opts=None, prefix=(), deadline=None):
     """Returns (tape, prefix, result, executions)."""
     state = {'n': 0}
     best = {k: list(v) for k, v in tape.items()}
     prefix = list(prefix)
 
+    def exhausted():
+        return state['n'] >= budget or (deadline is not None and time.time() > deadline and state['n'] >= 2)
+
     def fails(cand, pre):
-        if state['n'] >= budget:
+        if exhausted():
             return None
         state['n'] += 1
         r = execute_isolated(prop_mod, pre, 0, tier, replay=cand, wall_limit=60, opts=opts)
@@ -35,9 +40,9 @@ def minimise(prop_mod, tape, vclass, tier='quick', budget=300, opts=None, prefix
         return None, prefix, None, state['n']
     # shrink the prefix (delta debugging, coarse to fine)
     span = max(1, len(prefix) // 2)
-    while prefix and span >= 1 and state['n'] < budget:
+    while prefix and span >= 1 and not exhausted():
         i = 0
-        while i < len(prefix) and state['n'] < budget:
+        while i < len(prefix) and not exhausted():
             cand = prefix[:i] + prefix[i + span:]
             r = fails(best, cand)
             if r is not None:
@@ -67,13 +72,17 @@ def minimise(prop_mod, tape, vclass, tier='quick', budget=300, opts=None, prefix
     # 2. per-stream span deletion, zeroing, halving
     improved = True
     rounds = 0
-    while improved and state['n'] < budget and rounds < 4:
+    while improved and not exhausted() and rounds < 4:
         improved = False
         rounds += 1
         for s in sorted(list(best), key=lambda k: (not k.startswith(CANON_FIRST), k)):
-            for span in (16, 8, 4, 2, 1):
+            if exhausted():
+                break
+            for span in (4096, 256, 16, 8, 4, 2, 1):
+                if s in best and span > len(best[s]):
+                    continue
                 i = 0
-                while s in best and i < len(best[s]) and state['n'] < budget:
+                while s in best and i < len(best[s]) and not exhausted():
                     c = dict(best)
                     c[s] = best[s][:i] + best[s][i + span:]
                     if len(c[s]) < len(best[s]) and attempt(c):
@@ -81,7 +90,7 @@ def minimise(prop_mod, tape, vclass, tier='quick', budget=300, opts=None, prefix
                     else:
                         i += span
             i = 0
-            while s in best and i < len(best[s]) and state['n'] < budget:
+            while s in best and i < len(best[s]) and not exhausted():
                 v = best[s][i]
                 if v:
                     c = dict(best)
